@@ -14,6 +14,12 @@ scenario list and go through the same run / analyse / judge (Spec.C08.holds, pol
   nonce-hdr   Replay-Nonce header values: empty, a non-ASCII byte, white space inside — on error answers (to be
               re-sent) and on 2xx answers;
   cut         bodies that end before the announced Content-Length (mock answer key `cut_after`), 2xx and error.
+  retry-after Retry-After headers (RFC 8555 6.6, 7.5.1; mock CA options `retry_after_polls` / `retry_after_errors`,
+              answer key `retry_after`): absent, "0", "1", "120", an HTTP-date, a value changing from answer to
+              answer — on the answers to the polls of an authorization / order that NEVER reaches the awaited status,
+              or reaches it after 19 / 20 polls; on 429 / 503 answers in runs of 1, 9, 10, 11; both at once (every
+              second poll answered by an error).  Whatever the header says, at most 20 polls of one object and 10
+              transmissions of one request: a `poll_cap` ends a run whose polls go on beyond any bounded polling.
 """
 import random
 
@@ -116,3 +122,31 @@ def add(ctx, table, scns):
         plan("%s-%sx%d" % (name, t, L), "second", [{"kind": kind, "from": frm, "times": L, "answer": prob(t)}], L, None, certs=CERTS2)
     for (kind, frm, name) in (sec if not quick else sec[:1]):
         plan("%s-unauthorized" % name, "second", [{"kind": kind, "from": frm, "times": 1, "answer": prob("unauthorized")}], 1, None, certs=CERTS2)
+    # ---- Retry-After on poll answers and on 429 / 503 answers
+    NEVER = c08.NEVER
+    phases = [("polls_before_valid", "authz"), ("order_polls_before_ready", "orderReady"), ("order_polls_before_valid", "orderValid")]
+    values = ["0", "1", "120", "date+30", ["1", "0", "120", "0"], None]
+    sel = [(ph, k, v) for ph in phases for k in (NEVER, 19, 20) for v in values]
+    if quick:
+        # never-ending polls: every value once, phases rotating; late ones: two
+        sel = [(phases[i % 3], NEVER, v) for i, v in enumerate(values)] + [(phases[1], NEVER, "0"), (phases[2], NEVER, "1")]
+        sel += [(rng.choice(phases), 19, "0"), (rng.choice(phases), 20, "1")]
+    for (opt, ph), k, v in sel:
+        name = "never" if k == NEVER else str(k)
+        scns.append({"id": len(scns), "pos": None, "label": "%s-%s-retry-after-%s" % (ph, name, "absent" if v is None else "changing" if isinstance(v, list) else v),
+                     "L": k, "class": "retry-after-poll", "rules": [], "ca_opts": {opt: k, "retry_after_polls": v}, "poll_cap": 30})
+    errs = [("rateLimited", 429), ("serverInternal", 503), ("rateLimited", 503), ("badNonce", 429)]
+    sel = [(p, e, L, v) for p in P + c08.POLL_POSITIONS for e in errs for L in (1, 9, 10, 11) for v in ("0", "1", "120", "date+60")]
+    sel = rng.sample(sel, 6 if quick else 120)
+    for pos, (t, st), L, v in sel:
+        plan("%s-%d-retry-after-%s" % (t, st, v), "retry-after-error", [c08.rule_for(pos, L, dict(prob(t, status=st), retry_after=v))], L, pos)
+    # the same through the CA option (every 429 / 503 answer), and both headers in one never-ending poll sequence
+    t = rng.choice(["rateLimited", "serverInternal"])
+    p0 = rng.choice(P)
+    plan("option-errors-%s" % t, "retry-after-error", [c08.rule_for(p0, 9, prob(t, status=rng.choice([429, 503])))], 9, p0,
+         ca_opts={"retry_after_errors": rng.choice(["0", "1", "120"])})
+    for (opt, kind, frm), v in ([(pol[0], "0")] if quick else [(o, v) for o in pol for v in ("0", "1", "date+5")]):
+        s = {"id": len(scns), "pos": None, "label": "%s-never-errors-every-second-retry-after-%s" % (opt, v), "L": NEVER, "class": "retry-after-poll",
+             "rules": [{"kind": kind, "from": frm, "every": 2, "phase": 0, "times": 60, "answer": dict(prob("rateLimited", status=429), retry_after="1")}],
+             "ca_opts": {opt: NEVER, "retry_after_polls": v}, "poll_cap": 60}
+        scns.append(s)
